@@ -411,7 +411,38 @@ Definition check_case (c : case) : N :=
   | v => v
   end.
 
-Definition check_all (cases : list case) : list verdict := check_cases check_case cases.
+(* compact wire format of the harness (numbers only, fast to parse):
+   event = (thread, label code, a, c, m): label code/arguments as in [dec_label]; the count of
+   LLeave is sent as c = count + 1000; m = 0 not sampled, 1 map empty, i + 2 map holds i.
+   program = (kind, argument): 0 summon, 1 Close(a), 2 Destroy(a), 3 cancel(a). *)
+Definition rawev := (N * N * N * N * N)%type.
+Definition dec_label (k a c : N) : label :=
+  let n := N.to_nat a in
+  match k with
+  | 0 => LLoaded n | 1 => LRetry n | 2 => LWait n | 3 => LEntered n | 4 => LCtxLeave n
+  | 5 => LFound n | 6 => LNil | 7 => LCtxDone | 8 => LWaitClose n | 9 => LReturn n
+  | 10 => LClosed n | 11 => LTimeout n | 12 => LNew n | 13 => LStored n
+  | 14 => LLeave n (Z.of_N c - 1000)%Z
+  | 15 => LCloseBegin n | 16 => LCloseSkip n | 17 => LCancelled n | 18 => LCallback n
+  | 19 => LDMarked n | 20 => LDBegin n | 21 => LDSkip n | 22 => LCancel n
+  | _ => LCbStart n
+  end%N.
+Definition dec_obs (e : rawev) : obs :=
+  let '(t, k, a, c, m) := e in
+  {| o_t := N.to_nat t; o_l := dec_label k a c; o_sampled := negb (N.eqb m 0);
+     o_map := if N.leb m 1 then None else Some (N.to_nat (m - 2)) |}.
+Definition dec_prog (p : N * N) : prog :=
+  match fst p with
+  | 0 => PSummon | 1 => PClose (N.to_nat (snd p)) | 2 => PDestroy (N.to_nat (snd p))
+  | _ => PCancel (N.to_nat (snd p))
+  end%N.
+Definition rawcase := (list (N * N) * list rawev * list rawev)%type.
+Definition dec_case (r : rawcase) : case :=
+  let '(ps, tr, tl) := r in
+  {| c_progs := map dec_prog ps; c_trace := map dec_obs tr; c_tail := map dec_obs tl |}.
+
+Definition check_all (cases : list rawcase) : list verdict :=
+  check_cases (fun r => check_case (dec_case r)) cases.
 
 (* ---- model -> impl: witnesses and enumerated schedules ------------------------------------ *)
 
